@@ -276,6 +276,21 @@ func (s *Spec) Ops(st *explore.State) []explore.Op {
 			r := w.Deliver(c.Ctx, &fxgovtypes.MsgUpdateCustomParams{Authority: world.GovAuthority(), MsgUrl: sdk.MsgTypeURL(&fxgovtypes.MsgUpdateSwitchParams{}), CustomParams: fxgovtypes.CustomParams{DepositRatio: "0", VotingPeriod: &one, Quorum: "0.9"}})
 			c.Accepted, c.Outcome = r.OK(), map[bool]string{true: "ok", false: "rejected"}[r.OK()]
 		}})
+		// a quorum that the first validator's vote alone meets exactly (the boundary of "at least")
+		ops = append(ops, explore.Op{Name: "SetCustom(toggle,7d,quorum=exactly-validator-1)", Run: func(c *explore.State) {
+			week := 7 * day
+			v1, err := w.App.StakingKeeper.GetValidator(c.Ctx, w.Vals[0].ValAddr())
+			if err != nil {
+				panic(err)
+			}
+			bonded, err := w.App.StakingKeeper.TotalBondedTokens(c.Ctx)
+			if err != nil {
+				panic(err)
+			}
+			q := sdkmath.LegacyNewDecFromInt(v1.BondedTokens()).Quo(sdkmath.LegacyNewDecFromInt(bonded))
+			r := w.Deliver(c.Ctx, &fxgovtypes.MsgUpdateCustomParams{Authority: world.GovAuthority(), MsgUrl: sdk.MsgTypeURL(&erc20types.MsgToggleTokenConversion{}), CustomParams: fxgovtypes.CustomParams{DepositRatio: "0", VotingPeriod: &week, Quorum: q.String()}})
+			c.Accepted, c.Outcome = r.OK(), map[bool]string{true: "ok", false: "rejected"}[r.OK()]
+		}})
 		ops = append(ops, explore.Op{Name: "RemoveCustom(toggle)", Run: func(c *explore.State) {
 			r := w.Deliver(c.Ctx, &fxgovtypes.MsgUpdateCustomParams{Authority: world.GovAuthority(), MsgUrl: sdk.MsgTypeURL(&erc20types.MsgToggleTokenConversion{})})
 			c.Accepted, c.Outcome = r.OK(), map[bool]string{true: "ok", false: "rejected"}[r.OK()]
